@@ -197,6 +197,9 @@ def _pred2(L, pairs):
     return lambda a, b: L.Or(*[L.And(a == U[i], b == U[j]) for i, j in ps])
 
 
+_CTX = {}
+
+
 def from_real(L: Logic, world: World, r, shape=None):
     """real python result -> symbolic value with concrete predicates.  `shape` is the spec value (guides the kind)."""
     graph = y0mod("y0.graph")
@@ -235,6 +238,15 @@ def from_real(L: Logic, world: World, r, shape=None):
         return VNx(directed, _pred1(L, ns), _pred2(L, es), owned=True, nattrs=nattrs)
     if isinstance(r, dsl.Variable):
         return VNode(L.universe[ix(r)])
+    import dataclasses
+    if dataclasses.is_dataclass(r) and not isinstance(r, type) and _CTX.get("repo") is not None:
+        from .values import VObj
+        cls = _CTX["repo"].resolve(f"{type(r).__module__}.{type(r).__name__}")
+        fields = {}
+        for f in dataclasses.fields(r):
+            v = getattr(r, f.name)
+            fields[f.name] = from_real(L, world, v, VSeq(None, None) if isinstance(v, tuple) else None)
+        return VObj(cls, fields, owned=True)
     if isinstance(r, (set, frozenset)) and r and all(isinstance(e, (set, frozenset)) for e in r):
         sets = [sorted(ix(e) for e in s) for s in r]
         return _family(L, sets)
@@ -249,6 +261,8 @@ def from_real(L: Logic, world: World, r, shape=None):
             return VSet(_pred2(L, [(ix(a), ix(b)) for a, b in r]), arity=2, kind="list")
         if isinstance(shape, VTuple) and isinstance(r, tuple):
             return VTuple([from_real(L, world, x, s) for x, s in zip(r, shape.items)])
+        if any(not isinstance(e, dsl.Variable) for e in r):
+            raise OutOfSubset(f"cannot read back a sequence of {type(r[0]).__name__}")
         idxs = [ix(e) for e in r]
         if len(set(idxs)) != len(idxs):
             if isinstance(shape, VSeq):
@@ -299,6 +313,7 @@ def call_real(qual: str, world: World, variant, data, recv_first=True):
             continue
         args[p] = to_real(world, data[p])
     fn, bound = resolve_callable(qual)
+    args = shape_iterables(qual, fn, bound, args, data)
     try:
         if bound == "method":
             names = list(args)
@@ -315,6 +330,43 @@ def call_real(qual: str, world: World, variant, data, recv_first=True):
         return ("return", res)
     except Exception as e:   # the real function raised: the contract's `raises` clause decides whether that is allowed
         return ("raise", type(e).__name__, "".join(traceback.format_exception_only(type(e), e)).strip())
+
+
+def shape_iterables(qual, fn, bound, args, data):
+    """A parameter annotated Iterable[...] may legally receive any iterable, including one-shot iterators; one annotated
+    Collection / Sequence any re-iterable container.  The container kind is chosen deterministically from the case."""
+    import hashlib
+    import inspect
+    try:
+        if bound == "method":
+            names = list(args)
+            target = getattr(type(args[names[0]]), fn)
+        elif bound == "classmethod":
+            target = getattr(fn[0], fn[1])
+        else:
+            target = fn
+        sig = inspect.signature(target)
+    except Exception:
+        return args
+    h = int(hashlib.sha256(repr(sorted((k, repr(v)) for k, v in data.items())).encode()).hexdigest(), 16)
+    out = dict(args)
+    for p, v in args.items():
+        if not isinstance(v, set) or p not in sig.parameters:
+            continue
+        ann = str(sig.parameters[p].annotation)
+        if "Iterable" in ann:
+            kinds = ["set", "list", "tuple", "frozenset", "iter", "gen"]
+        elif "Collection" in ann or "Sequence" in ann:
+            kinds = ["set", "list", "tuple", "frozenset"] if "Sequence" not in ann else ["list", "tuple"]
+        else:
+            continue
+        kind = kinds[(h >> 3) % len(kinds)]
+        items = sorted(v, key=str)
+        if (h >> 11) % 2:
+            items.reverse()
+        out[p] = {"set": set, "list": list, "tuple": tuple, "frozenset": frozenset, "iter": lambda x: iter(list(x)),
+                  "gen": lambda x: (e for e in list(x))}[kind](items)
+    return out
 
 
 def resolve_callable(qual):
@@ -390,6 +442,7 @@ def eval_contract(repo, con: Contract, variant, data, world: World, outcome, reg
         sp = con.spec(ex, a)
     except Exception:
         sp = None
+    _CTX["repo"] = repo
     res = from_real(L, world, outcome[1], sp)
     clauses = con.post(ex, a, res)
     hyps = pins + list(ex.pc)
